@@ -118,3 +118,18 @@ def names(S, only):
         return
     from checks import C13
     C13.rule_stg(S, only=only)
+
+
+def gc_safety(S):
+    """Epoch-based reclamation (C07): what a reader obtained stays valid until it leaves - a precondition of every
+    property that lets a reader look at values or nodes after its validation (C01, C04, C10, C15)."""
+    if not _once(S, 'gc_safety'):
+        return
+    from checks import C07, C14
+    C07.rule_wmf(S)
+    C07.rule_ret(S)
+    C07.rule_gcg(S)
+    C07.rule_min(S)
+    C07.rule_adv(S)
+    C07.rule_pub(S)
+    C14.rule_lve(S)
